@@ -21,6 +21,10 @@ type Ctx struct {
 	prefix []int
 	Points []Point
 	budget map[string]int
+	// Lenient (ReplayLenient): a recorded choice that is out of range where it is replayed is clamped instead of being a
+	// divergence; Clamped counts how often that happened.
+	Lenient bool
+	Clamped int
 	// Shadow marks an execution that only serves to enumerate the subtrees of a shard; it belongs to another shard,
 	// so the body must not count or judge it.
 	Shadow bool
@@ -39,6 +43,11 @@ func (c *Ctx) Choose(n int, label string) int {
 	ch := 0
 	if i := len(c.Points); i < len(c.prefix) {
 		ch = c.prefix[i]
+		if c.Lenient && ch >= n {
+			// (ReplayLenient) the recorded answer does not exist at this point of this execution: the nearest one that does
+			c.Clamped++
+			ch = n - 1
+		}
 		if ch < 0 || ch >= n {
 			panic(ReplayError{fmt.Sprintf("explore: replay divergence at point %d (%s): recorded choice %d, only %d alternatives", i, label, ch, n)})
 		}
@@ -129,6 +138,15 @@ func Explore(body func(c *Ctx), maxExec int64) Stats {
 }
 
 // Replay runs body once on the given choice sequence.
+// ReplayLenient replays choices on an execution that may offer fewer alternatives at some points than the execution the
+// choices were recorded on (a client that reads through a smaller window is offered fewer ways to cut a read): an
+// out-of-range choice is clamped to the largest one offered, and once the recorded choices are used up the default is taken.
+func ReplayLenient(body func(c *Ctx), choices []int) *Ctx {
+	c := &Ctx{prefix: choices, Lenient: true}
+	body(c)
+	return c
+}
+
 func Replay(body func(c *Ctx), choices []int) *Ctx {
 	c := &Ctx{prefix: choices}
 	body(c)
